@@ -408,6 +408,15 @@ def alternatives(t: Term, limit: int = 8) -> list[tuple[Formula, Term]]:
         if len(inner) > 1:
             return [(g, (t[0], v, *t[2:])) for g, v in inner]
         return [(TRUE, t)]
+    if t[0] == "mcall" and t[2] == "join" and len(t[3]) == 1 and unbox(t[3][0])[0] == "phi":
+        # the joined sequence is one of several (a list extended on some paths only)
+        out3: list[tuple[Formula, Term]] = []
+        for g, v in unbox(t[3][0])[1]:
+            for g2, v2 in alternatives(("mcall", t[1], "join", (v,), t[4]), limit):
+                h = f_and([g, g2])
+                if h != FALSE:
+                    out3.append((h, v2))
+        return out3 if 1 < len(out3) <= limit else [(TRUE, t)]
     if t[0] == "mcall" and t[2] == "join" and len(t[3]) == 1 and unbox(t[3][0])[0] in ("tuple", "list"):
         # choices among the joined pieces (also inside spliced parts): one alternative per combination
         disp = unbox(t[3][0])
